@@ -92,6 +92,8 @@ func main() {
 			gcRetain()
 		case "escape":
 			gcEscape()
+		case "alias":
+			gcAlias()
 		default:
 			os.Exit(2)
 		}
